@@ -507,6 +507,7 @@ PASS_NATIVE = {
     builtins.enumerate, builtins.zip, builtins.reversed, builtins.id, builtins.sorted,
     builtins.callable, builtins.issubclass, builtins.print, builtins.filter, builtins.map,
     builtins.object, collections.deque, builtins.slice, builtins.super,
+    object.__setattr__, object.__init__, object.__new__, type.__call__, type.__setattr__,
 }
 
 _LIST_PASS = {'append', 'insert', 'extend', 'pop', '__setitem__', '__getitem__', 'appendleft',
